@@ -25,12 +25,14 @@ from vlib import f2b, fs2b, b2f, b2fs, ints
 from props import c01
 
 ID = "C08"
-GEN = ["Combinators", "Leaves", "Misc"]
+GEN = ["Combinators", "Leaves", "Misc", "Params", "Flows"]
 RULE = ("random expression trees of array bijections (elementwise leaves with per-element non-default parameters, Chain, Invert, "
         "Concatenate and Stack along every valid axis incl. negative, Partial with int/slice/int-array/bool-array/tuple indices, Reshape, "
         "EmbedCondition, Scan, Vmap with mapped or broadcast parameters and mapped/broadcast condition), ranks 0-3, conditional and "
         "unconditional children mixed; all four methods; non-trivial = tree contains at least one combinator and non-default parameters; "
-        "distinct = distinct (tree, method, input)")
+        "distinct = distinct (tree, method, input); premade flows: the Scan / Invert(Scan) of real factory-built coupling / MAF / planar flows "
+        "(dims 1-5, 1-4 layers, heterogeneous perturbed layers, each with its own permutation) and of hand-stacked BNAF stacks against the generated "
+        "factory bodies = generated Chain of the unstacked layers (both log-det methods), _add_default_permute branch structure, _affine_with_min_scale")
 TRUSTED = c01.TRUSTED + [
     "Model/Arr.lean: three-level (O,A,I) view of row-major data for axis operations, gather/scatter for Partial (hand model, validated here against jnp)",
     "Partial's idxs are resolved to flat positions with NumPy indexing in the harness (in-range indices)",
@@ -270,6 +272,10 @@ def corr(c, tier, rng, n_trees=None):
     if own:
         from props import c01
         c01.scan_correspondence(c, tier, rng)
+        # the Scan inside every premade flow: the generated factory bodies (Scan = generated Chain of the UNSTACKED layers, each with
+        # its own parameters and permutation) against the real Scan / Invert(Scan) of real factory-built flows, both log-det methods
+        from props import flows
+        flows.corr_flows(c, tier, rng, parts=("helpers", "factories", "bnaf"), methods=("tl", "il"))
     outs = vlib.run_model(lines)
     for line, got, want, info in zip(lines, outs, wants, infos):
         if got.startswith("ERR") or any(isinstance(w, str) for w in want):
@@ -359,6 +365,10 @@ def oracle_violations(node, rng):
 
 def search(hints, tier, rng):
     wit = []
+    from props import flows
+    wit += flows.search_flows(tier, rng)      # structure of factory-built flows, Scan vs Chain of its unstacked layers
+    if len(wit) >= 5:
+        return wit[:5]
     for _ in range(80 if tier == "quick" else 600):
         shape = rng.choice(SHAPES)
         try:
